@@ -34,7 +34,7 @@ from ..runner import HarnessError
 
 PROPERTY = "C09"
 LEVEL = "exploration"
-SHARDS = {"quick": 8, "thorough": 16}
+SHARDS = {"quick": 12, "thorough": 16}
 # one numba/OpenMP thread per shard: the Lie-series kernels synchronise at barriers and a busy machine turns every barrier of a
 # 2-thread team into a scheduler quantum (measured: 1.5 s -> 50 s per case with 8 shards x 2 threads)
 NUMBA_THREADS = {"quick": 1, "thorough": 1}
@@ -479,9 +479,9 @@ def run(ctx):
         raise HarnessError("oracle self-test failed: %r" % (e,))
     ctx.extra["section_root_tolerance"] = "1e-12 + 4 eps b + 32 eps sum|terms|/|dH/dm|"
     if ctx.tier == "quick":
-        plan = [(4, 128), (6, 24)]
+        plan = [(4, 120), (6, 24)]
     else:
-        plan = [(4, 2400), (6, 640), (8, 128), (10, 16)]
+        plan = [(4, 1600), (6, 480), (8, 64), (10, 16)]
     for N, total in plan:
         # no Hypothesis shrink pass: one evaluation costs 1.5 s (N=4) .. 200 s (N=10) and the verdict payloads are already
         # reduced to the failing part (ladder without sections / one section without ladder)
